@@ -364,3 +364,127 @@ def run(tape, ctx: Ctx) -> None:
                   "started": w.started, "delivered": w.delivered,
                   "raised": type(raised).__name__ if raised else None,
                   "decisions": [d[0] if len(d) == 1 else list(d) for d in ctx.decisions[:40]]}
+
+
+# ---------------------------------------------------------------------------------------------------------
+# W1b: the real PauliSumCollector over a sampler whose jobs complete when the simulator says so
+# ---------------------------------------------------------------------------------------------------------
+
+def run_pauli(tape, ctx: Ctx) -> None:
+    ctx.workload = "W1-pauli-sum-collector"
+    q0, q1 = cirq.LineQubit.range(2)
+    circuit = cirq.Circuit(cirq.H(q0), cirq.CNOT(q0, q1))
+    pool = [cirq.Z(q0) * cirq.Z(q1), cirq.X(q0) * cirq.X(q1), cirq.Z(q0), cirq.Y(q0) * cirq.Y(q1), cirq.X(q1)]
+    n_terms = 1 + tape.draw(3, "n-terms")
+    coefs = [[0.5, 1.5, -1.0, 2.0, -0.25][tape.draw(5, "coef")] for _ in range(n_terms)]
+    terms = [pool[(tape.draw(len(pool), "term") + i) % len(pool)] for i in range(n_terms)]
+    # distinct terms only (equal Pauli strings would be merged by PauliSum)
+    seen, uniq_terms, uniq_coefs = set(), [], []
+    for t, c in zip(terms, coefs):
+        if t not in seen:
+            seen.add(t)
+            uniq_terms.append(t)
+            uniq_coefs.append(c)
+    terms, coefs = uniq_terms, uniq_coefs
+    offset = [0, 2.0, -1.5][tape.draw(3, "identity-offset")]
+    observable = sum(c * t for c, t in zip(coefs, terms)) + offset
+    samples_per_term = 1 + tape.draw(7, "samples-per-term")
+    max_per_job = 1 + tape.draw(4, "max-samples-per-job")
+    concurrency = 1 + tape.draw(4, "concurrency")
+    ctx.decide("cfg", "pauli", [str(t) for t in terms], coefs, offset, samples_per_term, max_per_job, concurrency)
+
+    sim = Sim(tape, ctx, max_steps=40 * len(terms) * samples_per_term + 200)
+    state = {"pending": {}, "started": [], "inflight": 0, "failure": None, "requested": 0, "completions": []}
+    psum = cirq.PauliSum.wrap(observable)
+    # the order in which PauliSumCollector walks the terms
+    ordered = [(p / p.coefficient, p.coefficient) for p in psum if p]
+    per_term_bits = {i: [] for i in range(len(ordered))}
+
+    class Source:
+        def enabled(self):
+            return [(f"complete:{j}", (lambda jj=j: self.complete(jj))) for j in state["pending"]]
+
+        def complete(self, j):
+            fut = state["pending"].pop(j)
+            state["completions"].append(j)
+            fut.try_set_result(None)
+
+    class FakeSampler(cirq.Sampler):
+        async def run_sweep_async(self, program, params, repetitions=1):
+            j = len(state["started"])
+            term_index = state["requested"] // samples_per_term
+            state["requested"] += repetitions
+            state["started"].append((j, term_index, repetitions))
+            state["inflight"] += 1
+            if state["inflight"] > concurrency and state["failure"] is None:
+                state["failure"] = Violation(f"{P}-CONCURRENCY", f"{state['inflight']} jobs in flight with "
+                                                                 f"concurrency={concurrency} (PauliSumCollector)")
+            if repetitions > max_per_job and state["failure"] is None:
+                state["failure"] = Violation(f"{P}-BUDGET", f"a job asks for {repetitions} samples with "
+                                                            f"max_samples_per_job={max_per_job}")
+            nq = len(cirq.measurement_key_objs(program)) and sum(
+                len(op.qubits) for op in program.all_operations() if cirq.is_measurement(op))
+            bits = np.array([[tape.draw(2, "bit") for _ in range(nq)] for _ in range(repetitions)], dtype=np.int8)
+            if term_index < len(ordered):
+                per_term_bits[term_index].append(bits)
+            fut = duet.AwaitableFuture()
+            state["pending"][j] = fut
+            try:
+                await fut
+            finally:
+                state["inflight"] -= 1
+            return [cirq.ResultDict(params=cirq.ParamResolver({}), measurements={"out": bits})]
+
+    sim.add_source(Source())
+
+    def on_quiescent():
+        if state["failure"] is not None:
+            raise state["failure"]
+
+    sim.on_quiescent = on_quiescent
+    collector = cirq.PauliSumCollector(circuit, observable, samples_per_term=samples_per_term,
+                                       max_samples_per_job=max_per_job)
+    with simduet.installed(sim):
+        try:
+            collector.collect(FakeSampler(), concurrency=concurrency)
+        except Violation:
+            raise
+        except SimHang as e:
+            raise Violation(f"{P}-HANG", f"PauliSumCollector.collect never returns: {e}")
+        except StepCapExceeded as e:
+            raise Violation(f"{P}-HANG", f"PauliSumCollector.collect did not finish ({e})")
+    if state["failure"] is not None:
+        raise state["failure"]
+    if state["pending"]:
+        raise Violation(f"{P}-UNCLEAN-STOP", "collect() returned with jobs in flight")
+    # every term sampled exactly samples_per_term times
+    totals = {}
+    for _j, ti, reps in state["started"]:
+        totals[ti] = totals.get(ti, 0) + reps
+    for i in range(len(ordered)):
+        if totals.get(i, 0) != samples_per_term:
+            raise Violation(f"{P}-LOST-RESULT", f"Pauli term {ordered[i][0]} was sampled {totals.get(i, 0)} times, "
+                                                f"not samples_per_term={samples_per_term} (jobs {state['started']})")
+    if any(ti >= len(ordered) for _j, ti, _r in state["started"]):
+        raise Violation(f"{P}-BUDGET", f"more samples requested than terms x samples_per_term: {state['started']}")
+    # the estimate equals the energy recomputed from the multiset of delivered results, whatever the order
+    energy = 0j
+    for i, (_p, coef) in enumerate(ordered):
+        allbits = np.concatenate(per_term_bits[i], axis=0)
+        par = allbits.sum(axis=1) % 2
+        a = int((par == 0).sum())
+        b = int((par == 1).sum())
+        energy += coef * (a - b) / (a + b)
+    energy += sum(p.coefficient for p in psum if not p)
+    got = collector.estimated_energy()
+    if abs(complex(got) - complex(energy)) > 1e-9:
+        raise Violation(f"{P}-WRONG-RESULT", f"estimated_energy()={got} but the delivered results give {energy} "
+                                             f"(completion order {state['completions']}, jobs {state['started']})")
+    if state["completions"] != sorted(state["completions"]):
+        ctx.probe("w1:pauli-out-of-order-completion")
+    ctx.probe("w1:pauli-sum-collector")
+    ctx.state(("w1p", len(ordered), min(samples_per_term, 4), min(max_per_job, 3), concurrency))
+    ctx.nontrivial = len(state["started"]) >= 2
+    ctx.sample = {"workload": "W1-PauliSumCollector", "terms": [str(t) for t in terms], "samples_per_term": samples_per_term,
+                  "max_samples_per_job": max_per_job, "concurrency": concurrency, "jobs": state["started"],
+                  "completion_order": state["completions"], "energy": str(got)}
